@@ -33,6 +33,13 @@ jobs whose single command string holds 9..264 references (several of them to fil
 and only after the 8th / 16th / ... / 256th reference), and python consumers with more than eight resource arguments; the oracle
 records the position (0-based rank among the references of its command string) of every reference it checks, and scans everything
 that was submitted (commands, code files, argument files, user_code) for resource uids of the batch that were left unreplaced.
+"For every pipeline" is quantified over the way the pipeline came about, too: phase `rejected` builds it in a session in which some calls
+are refused by the DSL (BatchException: a file of another job that its producer has not defined yet, a Job / Batch / unconverted
+PythonResult / foreign resource in a command, a Job among PythonJob.call arguments, write_output before the definition) and are then
+re-issued once the cause is gone.  A refused call is not part of the pipeline (it must raise BatchException, nothing else); the oracle
+judges the submitted specs against the accepted calls alone, so whatever a refused call left behind in the DSL objects must not change
+the plumbing of the accepted ones.  The transfer clause is also read from the consumer's side (3b): every location in the batch's scratch
+area that a submitted job downloads and that the driver did not write itself is uploaded by a submitted job that is among its parents.
 """
 import contextlib
 import io
@@ -61,9 +68,15 @@ RULE = (
     'is immediately followed by a digit. Phase wide: 3..12 jobs; fan-in jobs with one command string of 9..12 / 17..24 / 33..40 / '
     '65..80 / 129..140 / 257..264 references (own outputs, inputs, files, groups and group members of up to 11 producers, repeated '
     'mentions, multi-line literals in between); 1..7 of the consumed files / groups are mentioned nowhere else in the job and only at '
-    'or after reference position 0 / 8 / 16 / 32 / 64 / 128 / 256 of that string; python consumers with 9..20 resource arguments. Non-trivial: at least one file crosses jobs; distinct by the shape of the '
-    'program (op kinds, reference forms, extension timing) without the random names. quick 1200+100+100+200+150 programs, '
-    'thorough 16 shards x (5000+300+300+600+450).'
+    'or after reference position 0 / 8 / 16 / 32 / 64 / 128 / 256 of that string; python consumers with 9..20 resource arguments. Phase rejected: the session that '
+    'builds the pipeline (2..5 jobs) also holds calls the DSL refuses with a BatchException and the driver survives: earlier attempts at a '
+    'command / PythonJob.call of the program, issued verbatim while a file of another job they read is not yet defined by its producer '
+    '(re-issued after the producer\'s defining command), or with one more reference the DSL refuses (a Job, the Batch, an unconverted '
+    'PythonResult, a resource of another batch) at a random place among the references, or with a Job among the call arguments; '
+    'write_output of a job file before its producer mentions it; 0..2 refusals per call; groups declared and depends_on stated right after '
+    'the jobs are created, before any command. Non-trivial: at least one file crosses jobs; distinct by the shape of the '
+    'program (op kinds, reference forms, extension timing) without the random names. quick 1200+100+100+200+150+400 programs, '
+    'thorough 16 shards x (5000+300+300+600+450+1200).'
 )
 ASSUMPTIONS = [
     'the recording fake client receives exactly what hailtop.batch_client.aioclient.Batch.create_job would receive',
@@ -138,6 +151,27 @@ def FLOORS(tier):
            for t, n in zip(POSITIONS, (500, 340, 170, 75, 28, 3))},
         **{f'cross_job_reads_of_files_their_producer_first_mentions_at_position_{t}_or_later': n * k
            for t, n in zip(POSITIONS, (330, 190, 95, 40, 13, 3))},
+        # phase rejected (about half of the minimum over quick seeds 0..4; thorough runs 48 x the quick number of such sessions).
+        # refused_* = calls of the session that the DSL refused with a BatchException, by call and by what the message says;
+        # cross_job_reads_of_files_first_referenced_in_a_refused_call = (consumer, file) pairs of the submitted pipeline whose first
+        # reference by that consumer was refused as "undefined resource" (the producer defined the file later, the call was re-issued
+        # verbatim): the only cases in which what a refused reference leaves behind meets the registration of the accepted one;
+        # producers_reached_only_through_... = the parent clause seen through such files alone (no other file of that producer read,
+        # no explicit depends_on).  A run that never reached these is INCONCLUSIVE, not HELD.
+        'refused_calls_observed': 800 * k,
+        'refused_command_undefined_resource': 95 * k,
+        'refused_call_undefined_resource': 15 * k,
+        'refused_command_foreign_object': 340 * k,
+        'refused_command_resource_of_another_batch': 100 * k,
+        'refused_call_job_argument': 140 * k,
+        'refused_write_output_undefined_resource': 65 * k,
+        'cross_job_reads_of_files_first_referenced_in_a_refused_call': 78 * k,
+        'cross_job_reads_of_files_first_referenced_in_a_refused_call_bash_consumer': 65 * k,
+        'cross_job_reads_of_files_first_referenced_in_a_refused_call_python_consumer': 10 * k,
+        'producers_reached_only_through_once_refused_references': 38 * k,
+        'depends_on_declared_before_the_consumer_first_reads_a_file_of_that_job': 33 * k,
+        # every download from the batch's scratch area, in every phase (clause 3b)
+        'scratch_downloads_checked': 6000 * k,
     }
 
 
@@ -205,6 +239,9 @@ PLACEHOLDER = re.compile(r'__(RESOURCE_FILE|RESOURCE_GROUP|PYTHON_RESULT|JOB|BAT
 RESOURCE_UID = re.compile(r'__(?:RESOURCE_FILE|RESOURCE_GROUP|PYTHON_RESULT)__\d+__')
 # phase wide: number of references in one command string, and the reference positions (0-based rank among the references of the
 # string) from which on the counters / floors tell apart how deep into a command a checked reference sat
+# phase rejected: the pattern "a command / call that misspells a file of another job is refused, the corrected one is accepted".
+# See the note at the bottom of this file (candidate defect: the refused reference stays registered as a download of the consumer).
+REJECTED_TYPO_IN_WORKLOAD = os.environ.get('VERIF_C18_REJECTED_TYPO', '0') == '1'
 WIDE_WIDTHS = [(9, 12), (9, 12), (17, 24), (17, 24), (33, 40), (33, 40), (65, 80), (65, 80), (129, 140), (257, 264)]
 POSITIONS = (8, 16, 32, 64, 128, 256)
 
@@ -218,6 +255,7 @@ class Gen:
         self.jobs = []
         self.ops = []
         self.deferred = []
+        self.early = []   # phase rejected: depends_on declared before any command of the job
         self.dest_n = 0
         self.finals = {}  # job -> set of final file names below the job directory
 
@@ -257,11 +295,15 @@ class Gen:
             nj = r.choice([2, 3, 3, 4, 5])
         if self.mode == 'wide':
             nj = r.choice([3, 4, 6, 8, 10, 12])  # scatter / gather: many producers, fan-in consumers
+        if self.mode == 'rejected':
+            nj = r.choice([2, 3, 3, 4, 5])
         p_py = 0.0 if self.mode in ('tokens', 'digits') else r.choice([0.0, 0.25, 0.5])
         if self.mode == 'wide':
             p_py = r.choice([0.0, 0.0, 0.2])
         if self.mode == 'pyargs':
             p_py = r.choice([0.5, 0.75])
+        if self.mode == 'rejected':
+            p_py = r.choice([0.0, 0.3, 0.5])
         rank = list(range(nj))
         r.shuffle(rank)  # rank[k] = job index processed k-th; consumers only read from earlier-processed jobs
         same_name = r.choice(['same', None, 'v' * 260])
@@ -300,6 +342,10 @@ class Gen:
                 self.python_job(j, rank)
         r.shuffle(self.deferred)
         self.ops.extend(self.deferred)
+        if self.mode == 'rejected':
+            r.shuffle(self.early)
+            self.ops[len(creation):len(creation)] = self.early
+            self.inject_rejections()
         case = {
             'mode': self.mode, 'jobs': self.jobs, 'files': self.files, 'groups': self.groups, 'ops': self.ops,
             'token_space': (nj + r.randint(0, 2)) if self.mode == 'tokens' else None,
@@ -348,7 +394,9 @@ class Gen:
                 self.finals[j].add(gname)
                 self.groups.append({'gid': gid, 'producer': j, 'name': gname, 'members': members,
                                     'suffix': {nm: sfx for nm, _, sfx in membs}, 'templates': {nm: t for nm, t, _ in membs}})
-                self.ops.append({'op': 'declare_group', 'j': j, 'gid': gid})
+                # phase rejected: groups are declared right after the jobs are created (a refused early attempt at a command
+                # can then mention them)
+                (self.early if self.mode == 'rejected' else self.ops).append({'op': 'declare_group', 'j': j, 'gid': gid})
                 own_groups.append(gid)
         # extension before any mention
         for rid in own:
@@ -429,6 +477,8 @@ class Gen:
                         refs.append({'t': 'ref', 'form': 'file', 'rid': r.choice(own_early), 'suffix': ''})
             for _ in range(nref):
                 pool = r.random()
+                if self.mode == 'rejected':
+                    pool *= 0.7  # more reads of other jobs' files
                 if pool < 0.35 and fs:
                     refs.append({'t': 'ref', 'form': 'file', 'rid': r.choice(fs), 'suffix': ''})
                 elif pool < 0.55 and gs + own_groups:
@@ -482,10 +532,14 @@ class Gen:
         inputs = [f['rid'] for f in self.files if f['kind'] == 'input']
         if inputs and r.random() < 0.05:
             self.later({'op': 'write_output', 'rid': r.choice(inputs), 'dest': self.dest('.copy')})
-        if before and r.random() < 0.2:
+        if before and r.random() < (0.35 if self.mode == 'rejected' else 0.2):
             p = r.choice(sorted(before))
             job['depends_on'].append(p)
-            self.later({'op': 'depends_on', 'j': j, 'p': p})
+            if self.mode == 'rejected' and r.random() < 0.5:
+                # `j.depends_on(p)` right after the jobs were created, before any command of j mentions a file of p
+                self.early.append({'op': 'depends_on', 'j': j, 'p': p, 'early': True})
+            else:
+                self.later({'op': 'depends_on', 'j': j, 'p': p})
 
     def py_leaf(self, fs, gs, pys):
         r = self.rng
@@ -522,6 +576,8 @@ class Gen:
             args = []
             for _ in range(r.randint(0, 3)):
                 pool = r.random()
+                if self.mode == 'rejected':
+                    pool *= 0.7  # more reads of other jobs' files
                 if pool < 0.4 and fs:
                     args.append({'t': 'file', 'rid': r.choice(fs)})
                 elif pool < 0.55 and gs:
@@ -564,10 +620,158 @@ class Gen:
                     self.later({'op': 'write_output', 'rid': crid, 'dest': self.dest('.txt')})
             if r.random() < 0.15:
                 self.later({'op': 'write_output', 'rid': rid, 'dest': self.dest('.pickle')})
-        if before and r.random() < 0.2:
+        if before and r.random() < (0.35 if self.mode == 'rejected' else 0.2):
             p = r.choice(sorted(before))
             job['depends_on'].append(p)
-            self.later({'op': 'depends_on', 'j': j, 'p': p})
+            if self.mode == 'rejected' and r.random() < 0.5:
+                # `j.depends_on(p)` right after the jobs were created, before any command of j mentions a file of p
+                self.early.append({'op': 'depends_on', 'j': j, 'p': p, 'early': True})
+            else:
+                self.later({'op': 'depends_on', 'j': j, 'p': p})
+
+
+    # ---- phase rejected: DSL calls that are refused (BatchException), then corrected / re-issued ----
+    def op_refs(self, op):
+        """(rids of the files, gids of the groups) a command / call op references"""
+        fs, gs = [], []
+        if op['op'] == 'command':
+            for s in self.jobs[op['j']]['cmds'][op['c']]:
+                if s['t'] == 'ref':
+                    if s['form'] == 'file':
+                        fs.append(s['rid'])
+                    else:
+                        gs.append(s['gid'])
+            return fs, gs
+
+        def walk(a):
+            if a['t'] in ('file', 'pyresult'):
+                fs.append(a['rid'])
+            elif a['t'] == 'group':
+                gs.append(a['gid'])
+            elif a['t'] in ('list', 'tuple'):
+                for x in a['items']:
+                    walk(x)
+            elif a['t'] == 'dict':
+                for _, x in a['items']:
+                    walk(x)
+
+        call = self.jobs[op['j']]['calls'][op['k']]
+        for a in call['args']:
+            walk(a)
+        for _, a in call['kwargs']:
+            walk(a)
+        return fs, gs
+
+    def inject_rejections(self):
+        """The session that builds the pipeline contains calls the DSL refuses with a BatchException (the driver -- a notebook
+        user, a script that catches the exception -- goes on): the refused call is an earlier attempt at a call of the program
+        (`op['of']` = that accepted call), issued at an earlier point of the session (`slot`):
+          undefined   the very same command / PythonJob.call, issued while a file of another job it reads is not yet defined by
+                      its producer (the producer's defining command comes later in the session), re-issued verbatim afterwards;
+          foreign     the command with one more reference in it that the DSL refuses: a Job, the Batch, a PythonResult without
+                      conversion, a resource uid the batch does not know; the references before it have been processed already;
+          jobarg      the PythonJob.call with a Job object among its arguments;
+          typo        (switch REJECTED_TYPO_IN_WORKLOAD) the command / call with the name of a file of another job misspelt (a
+                      file its producer never defines); the accepted call is the correction;
+          write_output of a job file before its producer's first mention, repeated afterwards.
+        The refused call never becomes part of the pipeline; whatever it left behind must not change the plumbing of the calls
+        that were accepted.  Workload steering only: which reference is refused is read off the exception message at run time."""
+        r = self.rng
+        ops = self.ops
+        avail, define = {}, {}
+        for i, op in enumerate(ops):
+            k = op['op']
+            if k == 'read_input':
+                avail[('f', op['rid'])] = i
+            elif k in ('read_input_group', 'declare_group'):
+                avail[('g', op['gid'])] = i
+                for rid in self.groups[op['gid']]['members'].values():
+                    avail[('f', rid)] = i
+            elif k == 'new_job':
+                avail[('j', op['j'])] = i
+            elif k == 'convert':
+                avail[('f', op['rid'])] = i
+            elif k == 'call':
+                avail[('f', self.jobs[op['j']]['calls'][op['k']]['result'])] = i
+            elif k == 'command':
+                for s in self.jobs[op['j']]['cmds'][op['c']]:
+                    if s['t'] == 'ref' and s['form'] == 'file' and self.files[s['rid']]['producer'] == op['j']:
+                        define.setdefault(s['rid'], i)
+        # own files a refused command of their producer mentions may or may not have become defined by it: never relied upon
+        tainted = set()
+        inserts = []
+        pyresults = [f['rid'] for f in self.files if f['kind'] == 'pyresult']
+
+        def place(slot, op):
+            op['n'] = len(inserts)
+            inserts.append((slot, len(inserts), op))
+
+        for i, op in enumerate(list(ops)):
+            k = op['op']
+            if k == 'write_output':
+                f = self.files[op['rid']]
+                if f['kind'] == 'jobfile' and op['rid'] not in tainted and op['rid'] in define and r.random() < 0.5:
+                    slot = r.randint(avail[('j', f['producer'])] + 1, define[op['rid']])
+                    place(slot, {'op': 'rejected_write_output', 'rid': op['rid'], 'dest': op['dest'], 'why': 'write_output'})
+                continue
+            if k not in ('command', 'call'):
+                continue
+            j = op['j']
+            bash = k == 'command'
+            fs, gs = self.op_refs(op)
+            need = [avail[('j', j)]] + [avail[('g', g)] for g in gs]
+            trig, others = [], []
+            for rid in fs:
+                f = self.files[rid]
+                if f['kind'] == 'jobfile':
+                    need.append(avail[('j', f['producer'])])
+                    if f['producer'] != j:
+                        others.append(rid)
+                        if rid not in tainted and rid in define:
+                            trig.append(rid)
+                else:
+                    need.append(avail[('f', rid)])
+            lo = max(need)
+            if lo >= i:
+                continue
+            late = [t for t in trig if define[t] > lo]
+            n_rej = 0 if r.random() < (0.1 if late else 0.5) else r.choice([1, 1, 1, 2])
+            for _ in range(n_rej):
+                kinds = ['undefined'] * 5 if late else []
+                kinds.append('foreign' if bash else 'jobarg')
+                if REJECTED_TYPO_IN_WORKLOAD and others:
+                    kinds.append('typo')
+                why = r.choice(kinds)
+                of = {'j': j, 'c': op['c']} if bash else {'j': j, 'k': op['k']}
+                rej = dict(of, op='rejected_command' if bash else 'rejected_call', why=why)
+                if why == 'undefined':
+                    slot = r.randint(lo + 1, max(define[t] for t in late))
+                else:
+                    slot = r.randint(lo + 1, i)
+                made = [x for x in range(len(self.jobs)) if avail[('j', x)] < slot]  # j itself at least
+                if why == 'foreign':
+                    have = [p for p in pyresults if avail[('f', p)] < slot]
+                    token = r.choice(['job', 'job', 'batch', 'unknown'] + (['pyresult', 'pyresult'] if have else []))
+                    rej['foreign'] = {'token': token, 'at': r.randint(0, len(self.jobs[j]['cmds'][op['c']])),
+                                      'job': r.choice(made), 'rid': r.choice(have) if token == 'pyresult' else None}
+                elif why == 'jobarg':
+                    rej['jobarg'] = {'at': r.randint(0, len(self.jobs[j]['calls'][op['k']]['args'])), 'job': r.choice(made)}
+                elif why == 'typo':
+                    rej['typo'] = r.choice(others)
+                # the files of other jobs this attempt mentions while their producer has not defined them (model: defined by
+                # the producer's first accepted command that mentions the file)
+                rej['undefined_at_slot'] = sorted({t for t in trig if define[t] >= slot})
+                place(slot, rej)
+                if bash:
+                    tainted |= {rid for rid in fs if self.files[rid]['producer'] == j and self.files[rid]['kind'] == 'jobfile'}
+        out = []
+        by_slot = {}
+        for slot, n, op in inserts:
+            by_slot.setdefault(slot, []).append(op)
+        for i, op in enumerate(ops):
+            out.extend(by_slot.get(i, []))
+            out.append(op)
+        self.ops = out
 
 
 def gen_case(rng, mode):
@@ -581,6 +785,10 @@ def sentinel(j, c, k):
 # ------------------------------------------------------------------------------------------
 # recording fakes (the network boundary)
 # ------------------------------------------------------------------------------------------
+
+
+class NotRejected(Exception):
+    """a call the generated session expects the DSL to refuse was accepted"""
 
 
 class FakeJob:
@@ -669,7 +877,7 @@ def execute(case):
     import hailtop.batch.resource as resource_mod
     from hailtop.batch.exceptions import BatchException
 
-    obs = {'build_error': None, 'run_error': None, 'refused': None, 'probes': []}
+    obs = {'build_error': None, 'run_error': None, 'refused': None, 'probes': [], 'rejections': [], 'not_rejected': None}
     base = case['counter_base']
     resource_mod.ResourceFile._counter = base
     resource_mod.ResourceGroup._counter = base
@@ -721,6 +929,30 @@ def execute(case):
             b = hb.Batch(backend=be, name='c18')
             jobs, fobj, gobj = {}, {}, {}
             last_probe_site = None
+
+            def expect_rejection(op, thunk):
+                # a call of the session that the DSL must refuse; only BatchException is a refusal (anything else propagates)
+                try:
+                    thunk()
+                except BatchException as e:
+                    obs['rejections'].append({'n': op['n'], 'why': op['why'], 'message': str(e)[:400]})
+                    return
+                obs['not_rejected'] = {k: v for k, v in op.items()}
+                raise NotRejected()
+
+            def foreign_token(foreign):
+                if foreign['token'] == 'job':
+                    return f"{jobs[foreign['job']]}"
+                if foreign['token'] == 'batch':
+                    return f'{b}'
+                if foreign['token'] == 'pyresult':
+                    return f"{fobj[foreign['rid']]}"
+                return '__RESOURCE_FILE__987654321__'  # a resource of another batch
+
+            def misspelt(rid):
+                f = case['files'][rid]
+                return jobs[f['producer']]['zz-misspelt ' + f['name']]
+
             for op in case['ops']:
                 if op['op'] == 'command' and any('digit_probe' in s for s in case['jobs'][op['j']]['cmds'][op['c']]):
                     last_probe_site = (op['j'], op['c'])
@@ -760,14 +992,19 @@ def execute(case):
                     elif kind == 'add_extension':
                         f = case['files'][op['rid']]
                         jobs[f['producer']][f['name']].add_extension(op['ext'])
-                    elif kind == 'command':
+                    elif kind in ('command', 'rejected_command'):
                         j, c = op['j'], op['c']
                         text = []
                         segs = case['jobs'][j]['cmds'][c]
+                        foreign, typo = op.get('foreign'), op.get('typo')
                         for k, s in enumerate(segs):
+                            if foreign and foreign['at'] == k:
+                                text.append(foreign_token(foreign))
                             text.append(sentinel(j, c, k))
                             if s['t'] == 'lit':
                                 text.append(s['s'])
+                            elif s['form'] == 'file' and typo == s['rid']:
+                                text.append(f'{misspelt(typo)}{s["suffix"]}')
                             elif s['form'] == 'file':
                                 f = case['files'][s['rid']]
                                 if s['rid'] not in fobj:
@@ -785,15 +1022,27 @@ def execute(case):
                                 text.append(f'{fobj[s["rid"]]}{s["suffix"]}')
                             else:
                                 text.append(f'{gobj[s["gid"]]}{s["suffix"]}')
+                        if foreign and foreign['at'] == len(segs):
+                            text.append(foreign_token(foreign))
                         text.append(sentinel(j, c, len(segs)))
-                        jobs[j].command(''.join(text))
-                    elif kind == 'call':
+                        if kind == 'command':
+                            jobs[j].command(''.join(text))
+                        else:
+                            # the very text of the accepted command (plus the refused reference, if any): must be refused
+                            expect_rejection(op, lambda: jobs[j].command(''.join(text)))
+                    elif kind in ('call', 'rejected_call'):
                         j, k = op['j'], op['k']
                         call = case['jobs'][j]['calls'][k]
+                        typo = op.get('typo')
 
                         def real_arg(a):
                             if a['t'] == 'value':
                                 return a['v']
+                            if a['t'] == 'file' and typo == a['rid']:
+                                return misspelt(typo)
+                            if a['t'] == 'file' and a['rid'] not in fobj:
+                                f = case['files'][a['rid']]
+                                fobj[a['rid']] = jobs[f['producer']][f['name']]  # a job file nobody has mentioned yet
                             if a['t'] in ('file', 'pyresult'):
                                 return fobj[a['rid']]
                             if a['t'] == 'group':
@@ -804,20 +1053,33 @@ def execute(case):
                                 return {key: real_arg(x) for key, x in a['items']}
                             return [real_arg(x) for x in a['items']]
 
-                        fobj[call['result']] = jobs[j].call(ALL_PAYLOADS[call['fn']], *[real_arg(a) for a in call['args']],
-                                                            **{name: real_arg(a) for name, a in call['kwargs']})
+                        pos = [real_arg(a) for a in call['args']]
+                        kws = {name: real_arg(a) for name, a in call['kwargs']}
+                        if kind == 'call':
+                            fobj[call['result']] = jobs[j].call(ALL_PAYLOADS[call['fn']], *pos, **kws)
+                        else:
+                            if op.get('jobarg'):
+                                pos.insert(op['jobarg']['at'], jobs[op['jobarg']['job']])
+                            expect_rejection(op, lambda: jobs[j].call(ALL_PAYLOADS[call['fn']], *pos, **kws))
                     elif kind == 'convert':
                         f = case['files'][op['rid']]
                         res = fobj[f['of']]
                         fobj[op['rid']] = {'str': res.as_str, 'json': res.as_json, 'repr': res.as_repr}[f['how']]()
                     elif kind == 'write_output':
                         b.write_output(fobj[op['rid']], op['dest'])
+                    elif kind == 'rejected_write_output':
+                        f = case['files'][op['rid']]
+                        if op['rid'] not in fobj:
+                            fobj[op['rid']] = jobs[f['producer']][f['name']]
+                        expect_rejection(op, lambda: b.write_output(fobj[op['rid']], op['dest']))
                     elif kind == 'write_output_group':
                         b.write_output(gobj[op['gid']], op['dest'])
                     elif kind == 'depends_on':
                         jobs[op['j']].depends_on(jobs[op['p']])
                     else:
                         raise AssertionError(kind)
+            except NotRejected:
+                return obs
             except BatchException as e:
                 if obs['probes']:
                     obs['refused'] = repr(e)[:300]
@@ -988,6 +1250,8 @@ def shape_key(case):
             out.append(('call', op['j'], tuple(arg_shape(a) for a in call['args']), tuple('kw:' + arg_shape(a) for _, a in call['kwargs'])))
         elif k == 'new_job':
             out.append((k, op['j'], case['jobs'][op['j']]['kind']))
+        elif k.startswith('rejected_'):
+            out.append((k, op.get('j'), op['why'], (op.get('foreign') or {}).get('token'), len(op.get('undefined_at_slot') or ())))
         else:
             out.append((k,))
     return tuple(out)
@@ -1014,6 +1278,11 @@ def check(ctx, case, obs):
     if obs.get('refused'):
         ctx.count('probe_refused_loudly')
         return False
+    if obs.get('not_rejected'):
+        # the property does not state which calls the DSL has to refuse: a session whose "refused" call was accepted is not
+        # the session the generator meant, nothing is judged (the floors of the phase then decide: INCONCLUSIVE, not HELD)
+        ctx.count('sessions_dropped_because_an_expected_refusal_did_not_happen')
+        return False
     if obs.get('build_error'):
         viol('build/dsl-refused-generated-program', f"the DSL refused a generated program: {obs['build_error']}")
         return False
@@ -1039,6 +1308,37 @@ def check(ctx, case, obs):
         ctx.count('jobs_submitted')
     if obs['submits'] != 1:
         viol('submit/not-submitted-once', f"submit() called {obs['submits']} times")
+
+    # ---- 0. the calls of the session that the DSL refused (phase rejected) ----
+    # refused_first: (consumer, rid) -> the refusal named this file of another job as undefined, i.e. the consumer's reference to
+    # it was cut short half way; never_accepted: misspelt files (of a producer) that only refused calls mention
+    refused_first, misspelt_names = {}, {}
+    rej_ops = {op['n']: op for op in case['ops'] if op['op'].startswith('rejected_')}
+    for rj in obs.get('rejections') or ():
+        op = rej_ops[rj['n']]
+        msg = rj['message']
+        ctx.count('refused_calls_observed')
+        if msg.startswith("undefined resource '__RESOURCE_FILE__"):
+            what = 'resource_of_another_batch'
+        elif msg.startswith('undefined resource '):
+            what = 'undefined_resource'
+        elif 'reference to a Job object' in msg or 'reference to a Batch object' in msg or 'reference to a PythonResult object' in msg:
+            what = 'foreign_object'
+        elif 'cannot be other job objects' in msg:
+            what = 'job_argument'
+        else:
+            what = 'other'
+        ctx.count(f"refused_{op['op'][len('rejected_'):]}_{what}")
+        ctx.seen('refusal_messages', re.sub(r"'.*", '', msg.split('\n')[0])[:60])
+        if op['op'] == 'rejected_write_output' or not msg.startswith('undefined resource '):
+            continue
+        if op.get('typo') is not None and msg.startswith("undefined resource 'zz-misspelt " + files[op['typo']]['name'] + "'\n"):
+            misspelt_names[(op['j'], op['typo'])] = 'zz-misspelt ' + files[op['typo']]['name']
+            ctx.count('refused_references_to_a_misspelt_file')
+            continue
+        hit = [rid for rid in op['undefined_at_slot'] if msg.startswith("undefined resource '" + files[rid]['name'] + "'\n")]
+        for rid in hit:
+            refused_first.setdefault((op['j'], rid), op['op'])
 
     ext_post = {f['rid'] for f in files if f['ext_when'] == 'post'}
     uses = {}      # (job, rid) -> set of paths the job's command uses for the file
@@ -1378,6 +1678,11 @@ def check(ctx, case, obs):
                 ctx.count('converted_result_reads')
             stale = rid in ext_post
             aspec = spec_of[a]
+            if (j, rid) in refused_first:
+                # the consumer's first reference to this file was refused (the file was not defined yet); the accepted re-issue
+                # is the only thing that can have paired the download with the upload and made the producer a parent
+                ctx.count('cross_job_reads_of_files_first_referenced_in_a_refused_call')
+                ctx.count(f"cross_job_reads_of_files_first_referenced_in_a_refused_call_{jobs[j]['kind']}_consumer")
             # "the consumer is submitted as a child of the producer": demanded for every file the consumer uses, whether or
             # not the transfer itself is in order
             ctx.count('parents_checked')
@@ -1434,6 +1739,22 @@ def check(ctx, case, obs):
         if a not in jobs[j]['depends_on']:
             count_from('producers_first_mentioned', pos)
 
+    # phase rejected: producers a consumer reaches only through files whose first reference was refused (and does not depend_on
+    # explicitly): the only cases in which the parent clause shows what a re-issued call registers
+    reach = {}
+    for (j, rid) in uses:
+        a = files[rid]['producer']
+        if a is not None and a != j:
+            reach.setdefault((j, a), []).append((j, rid) in refused_first)
+    for (j, a), flags in sorted(reach.items()):
+        if all(flags) and a not in jobs[j]['depends_on']:
+            ctx.count('producers_reached_only_through_once_refused_references')
+    for op in case['ops']:
+        if op['op'] == 'depends_on' and op.get('early'):
+            ctx.count('depends_on_declared_before_the_first_command')
+            if (op['j'], op['p']) in reach:
+                ctx.count('depends_on_declared_before_the_consumer_first_reads_a_file_of_that_job')
+
     # python consumers with many resource arguments
     for j, job in enumerate(jobs):
         for call in job['calls']:
@@ -1452,6 +1773,32 @@ def check(ctx, case, obs):
             ctx.count('parents_checked')
             if spec_of[p]['job_id'] not in spec_of[j]['parents']:
                 viol('parents/explicit-dependency-lost', f'job {j} depends_on job {p} but is submitted with parents {spec_of[j]["parents"]}', job=j)
+                ok = False
+
+    # ---- 3b. the same clause read from the consumer's side: whatever a job downloads from the batch's scratch area (other
+    # than what the driver itself wrote there: code files, argument / function files, uploaded local inputs) is a file of another
+    # job: some job must upload exactly that location, and that job must be among the parents.  Quantified over the submitted
+    # input_files, not over the references of the model (a download the accepted calls do not account for is judged too)
+    scratch = 'gs://bucket/tmp/'
+    driver_written = set(fsfiles) | {t.get('to') for t in obs['transfers']}
+    uploaders = {}
+    for s in specs:
+        for l, r_out in s['output_files']:
+            uploaders.setdefault(r_out, set()).add(s['job_id'])
+    for j in range(len(jobs)):
+        spec = spec_of[j]
+        for r_in, l in spec['input_files']:
+            if not r_in.startswith(scratch) or r_in in driver_written:
+                continue
+            ctx.count('scratch_downloads_checked')
+            ups = uploaders.get(r_in, set())
+            if not ups:
+                left = [name for (jj, rid), name in misspelt_names.items() if jj == j and r_in.endswith('/' + name)]
+                key = 'rejection/refused-reference-stays-registered-as-a-download' if left else 'plumbing/download-from-a-location-no-job-uploads'
+                viol(key, f'job {j} downloads {r_in!r} (to {l!r}) but no submitted job uploads to that location; parents {spec["parents"]}', job=j)
+                ok = False
+            elif not ups & set(spec['parents']):
+                viol('parents/uploader-of-a-download-not-a-parent', f'job {j} downloads {r_in!r}, which job_id(s) {sorted(ups)} upload, but is submitted with parents {spec["parents"]}', job=j)
                 ok = False
 
     # ---- 4. external outputs ----
@@ -1560,7 +1907,8 @@ def run(ctx):
 
     gc.disable()  # Backend.__del__ runs the event loop: let the cyclic GC run between cases only
     phases = [('main', ctx.pick(1200, 5000)), ('tokens', ctx.pick(100, 300)), ('digits', ctx.pick(100, 300)),
-              ('pyargs', ctx.pick(200, 600)), ('wide', ctx.pick(150, 450))]  # ~8 ms per program (wide: ~40 ms)
+              ('pyargs', ctx.pick(200, 600)), ('wide', ctx.pick(150, 450)),  # ~8 ms per program (wide: ~40 ms)
+              ('rejected', ctx.pick(400, 1200))]
     for phase, n in phases:
         for i, rng in ctx.cases(n, phase):
             case = gen_case(rng, phase)
